@@ -5,6 +5,7 @@ import scen_common
 PID = "C06"
 PROP_V = ["Props/Properties_C06.v", "Props/Properties_C01w.v"]
 GEN_MODULES = ["Consts", "Sites"]
+FLOW_FILES = ['mu.c', 'mu_wait.c']
 REPLAY_HINT = "VRT_SEED=<seed> [VRT_MODE=<m>] _work/h/muwait_mix"
 PARTIAL = ["C06_rings / C06_scan_sound are proved over the pure functions the model's steps call (enqueue with merge at both ends, removal with "
            "ring repair, one scan round), for queues of any length; RingInv is not yet lifted to an invariant of all reachable worlds",
